@@ -15,7 +15,8 @@ inductive CaseState where
   | skip                                   -- after a mismatch: ignore the rest of the case
   | window (w : Window Nat)
   | methodNew (name : String) (params : List String)
-  | method (name : String) (st : MState) (ctx : Ctx) (prevLeaves : List String) (lstepOnly : Bool)
+  | method (name : String) (params : List String) (st : MState) (ctx : Ctx) (prevLeaves : List String)
+      (lstepOnly : Bool) (spec : SpecSt)
 
 structure Drv where
   P : Nat := 255
@@ -31,6 +32,7 @@ structure Drv where
   badCases : Nat := 0
   exempt : Nat := 0
   lsteps : Nat := 0
+  specs : Nat := 0
 
 def reportLimit : Nat := 20000
 
@@ -106,12 +108,12 @@ def stepMethod (d : Drv) (line : String) : Drv × Option String :=
         | .ok st =>
           let ctx : Ctx := bump { P := d.P, n := st.winLen } name inp
           let (bad, _) := cmpAll (cmpLeaf ctx (ctx.allow (stateScale ctx st))) (mLeaves st) leaves "state after new"
-          let d := { d with ops := d.ops + 1, cs := .method name st ctx leaves false }
+          let d := { d with ops := d.ops + 1, cs := .method name params st ctx leaves false (specInit name (inp.map (·.q))) }
           (match bad with
            | some m => mismatch d m line "constructor-state"
            | none => (d, none))
         | _ => ({ d with ops := d.ops + 1, cs := .skip }, none)
-  | .method name st ctx prev lonly, "X" :: inToks =>
+  | .method name params st ctx prev lonly spec, "X" :: inToks =>
     match inToks.mapM fzOf with
     | none => ({ d with cs := .skip }, some s!"NOTE case={d.caseId} non-finite input skipped")
     | some inp =>
@@ -122,7 +124,7 @@ def stepMethod (d : Drv) (line : String) : Drv × Option String :=
         -- keep only the per-step tie, resynchronised on the implementation's state
         let st' := (mLoad st leaves).getD st
         let d := { d with ops := d.ops + 1, lsteps := d.lsteps + (if ls.isSome then 1 else 0),
-                          cs := .method name st' ctx leaves true }
+                          cs := .method name params st' ctx leaves true spec }
         match ls with
         | some (some m) => mismatch d m line "semantic"
         | _ => (d, none)
@@ -132,10 +134,16 @@ def stepMethod (d : Drv) (line : String) : Drv × Option String :=
       | .error e, _ => mismatch d s!"model panics ({e}) but rust returned {unwords res}" line "panic"
       | .ok _, ["P"] => mismatch d "rust panicked, model does not" line "panic"
       | .ok (outs, st'), _ =>
+        let (sv, spec') := specStep name params spec (inp.map (·.q))
+        let mv := outExact (outs.headD .exempt)
+        if !specAgrees mv sv then
+          mismatch d s!"model output {specValStr mv} ≠ from-scratch spec {specValStr sv}" line "model-vs-spec"
+        else
         let (bad, ex) := cmpAll (cmpOut ctx) outs res "output"
         let d := { d with ops := d.ops + 1, exempt := d.exempt + ex,
                           lsteps := d.lsteps + (if ls.isSome then 1 else 0),
-                          cs := .method name st' ctx leaves false }
+                          specs := d.specs + (match sv with | .none => 0 | _ => 1),
+                          cs := .method name params st' ctx leaves false spec' }
         let bad2 := if leaves.isEmpty then none
           else (cmpAll (cmpLeaf ctx (ctx.allow (stateScale ctx st'))) (mLeaves st') leaves "state").1
         match bad, bad2, ls with
@@ -148,10 +156,10 @@ def stepMethod (d : Drv) (line : String) : Drv × Option String :=
             (cmpAll (cmpLeaf ctx (ctx.allow (stateScale ctx st'))) (mLeavesAcc st') leaves "acc").1.isNone
           let cls := if accOk then "residue-amplification" else "numeric-drift"
           let stR := (mLoad st' leaves).getD st'
-          mismatch d m line cls (.method name stR ctx leaves true)
+          mismatch d m line cls (.method name params stR ctx leaves true spec')
         | some m, _, some (some m2) => mismatch d (m ++ " || " ++ m2) line "semantic"
         | some m, _, none => mismatch d m line "unclassified"
-        | none, some m, some none => mismatch d m line "numeric-drift" (.method name ((mLoad st' leaves).getD st') ctx leaves true)
+        | none, some m, some none => mismatch d m line "numeric-drift" (.method name params ((mLoad st' leaves).getD st') ctx leaves true spec')
         | none, some m, _ => mismatch d m line "semantic"
   | _, _ => (d, none)
 
@@ -174,7 +182,7 @@ def step (d : Drv) (line : String) : Drv × Option String :=
     | .idle => (d, none)
     | .skip => (d, none)
     | .methodNew _ _ => stepMethod d line
-    | .method _ _ _ _ _ => stepMethod d line
+    | .method _ _ _ _ _ _ _ => stepMethod d line
     | .window w =>
       let (w', model) := windowOp d.P w op
       let rust := unwords res
@@ -202,5 +210,5 @@ def main (args : List String) : IO UInt32 := do
       pure (IO.FS.Stream.ofHandle hd)
     | _ => IO.getStdin
   let d ← loop h {}
-  IO.println s!"SUMMARY cases={d.cases} ops={d.ops} mismatches={d.mism} bad_cases={d.badCases} exempt={d.exempt} lsteps={d.lsteps}"
+  IO.println s!"SUMMARY cases={d.cases} ops={d.ops} mismatches={d.mism} bad_cases={d.badCases} exempt={d.exempt} lsteps={d.lsteps} spec_evals={d.specs}"
   return (if d.mism == 0 then 0 else 1)
